@@ -1237,11 +1237,16 @@ pub fn speed_limit_run(ctx: &mut Ctx, rng: &mut Rng, interval: Option<usize>, ex
                 ctx.count("obs.run_ok");
                 let last = sim.state;
                 ctx.count("obs.final_stop_checked");
+                // third recorded shape of the stepped-curve defect: the train is tracking the final stop curve (target 0,
+                // speed below the curve's limit in force, crawling at <= 1.5 m/s) and its last step carries it over the end
+                // of its path by less than that step's travel; walk() then returns Ok although the train is still moving
+                let overrun = last.offset.value - end;
+                let crawl_over_end = last.speed_target.value == 0.0 && last.speed.value > 0.0 && last.speed.value <= 1.5 && last.speed.value < last.speed_limit.value && overrun > 0.0 && overrun <= 1.5 * last.dt.value;
                 if last.speed.value != 0.0 {
-                    ctx.violate("stops_at_end", "C03:final_speed_nonzero", format!("[{what}] run returned Ok with final speed {}", last.speed.value), json!({"final": row_json(&last), "path_end": end, "case": case_json(&b)}));
+                    ctx.violate("stops_at_end", if crawl_over_end { "C03:final_speed_nonzero:crawls_over_the_end_while_tracking_the_stop_curve" } else { "C03:final_speed_nonzero" }, format!("[{what}] run returned Ok with final speed {}", last.speed.value), json!({"final": row_json(&last), "path_end": end, "case": case_json(&b)}));
                 }
                 if last.offset.value > end * (1.0 + 1e-12) + 1e-6 || last.offset.value < end - 1000.0 * 0.3048 - 1e-6 {
-                    ctx.violate("stops_inside_window", "C03:final_offset_outside_window", format!("[{what}] final front position {} outside [end - 1000 ft, end] with end = {end}", last.offset.value), json!({"final": row_json(&last), "path_end": end, "case": case_json(&b)}));
+                    ctx.violate("stops_inside_window", if crawl_over_end { "C03:final_offset_outside_window:crawls_over_the_end_while_tracking_the_stop_curve" } else { "C03:final_offset_outside_window" }, format!("[{what}] final front position {} outside [end - 1000 ft, end] with end = {end}", last.offset.value), json!({"final": row_json(&last), "path_end": end, "case": case_json(&b)}));
                 }
             }
         }
